@@ -689,7 +689,7 @@ def _find_text_delim_idx(region_str):
     Find the indices of the DS9 text field delimiters ({}, '', or "") in
     a string.
     """
-    pattern = re.compile(r'(text\s*=\s*[{\'"])')
+    pattern = re.compile(r'([a-zA-Z]+\s*=\s*[{\'"])')
     idx0 = []
     delim = []
     start_idx = []
